@@ -53,7 +53,7 @@ theorem left_join_code (truth : Term → Bool) :
        rightColumns
         [Term.app "assign" [Term.sym "value", Term.app ".na_value" [Term.sym "column"]],
          Term.app "assign" [Term.sym "dtype", Term.app ".na_dtype" [Term.sym "column"]],
-         Term.app "assign" [Term.sym "new", Term.app "Vector.fast([value], dtype).repeat" [Term.app ".nrow" [Term.sym "self"]]],
+         Term.app "assign" [Term.sym "new", Term.app ".repeat" [Term.app "Vector.fast" [Term.app "list" [Term.sym "value"], Term.sym "dtype"], Term.app ".nrow" [Term.sym "self"]]],
          Term.app "store" [Term.app "getitem" [Term.sym "new", found], Term.app "getitem" [Term.sym "column", Term.app "getitem" [src, found]]],
          Term.app "yield" [Term.app "tuple" [Term.sym "colname", Term.app ".copy" [Term.sym "new"]]]]] := rfl
 
